@@ -54,6 +54,17 @@ func (s *Slice) Apply(inputs []tensor.Tensor) ([]tensor.Tensor, error) {
 		}
 	}
 
+	nDims := len(data.Shape())
+	if !ops.AllInRange(axes, -nDims, nDims-1) {
+		return nil, ops.ErrNotAllAxesInRange(nDims, nDims)
+	}
+
+	for _, step := range steps {
+		if step == 0 {
+			return nil, ops.ErrInvalidInput("steps cannot be 0", s)
+		}
+	}
+
 	slices := s.constructSlices(starts, ends, steps, axes, len(data.Shape()))
 
 	out, err := data.Slice(slices...)
